@@ -643,5 +643,5 @@ CLAIM = {
     "technique": "static analysis: alias/effect abstract domain over symbolic values (copy vs view: index arrays copy, slices and helpers that may "
                  "return slices give views), mutation summaries, intra-procedural alias taint, "
                  "key-completeness and dunder-consistency lint, class-exact equality of the classes inside cache keys (folded __eq__ implies "
-                 "self.__class__ == other.__class__, truth table), seed-dominance, who-may-access",
+                 "self.__class__ == other.__class__, truth table), seed-dominance, who-may-access; C18.6 shared-allocation lint over every module",
 }
